@@ -33,7 +33,7 @@ func (na *NameAddr) GetAddress() *AddrSpec {
 }
 
 func (na *NameAddr) Write(writer io.Writer) (int, error) {
-	n, _ := fmt.Fprintf(writer, na.DisplayName)
+	n, _ := io.WriteString(writer, na.DisplayName)
 	m, _ := fmt.Fprintf(writer, "<")
 	n += m
 	m, _ = na.Addr.Write(writer)
